@@ -52,6 +52,7 @@ ssize_t __wrap_getrandom(void *buf, size_t len, unsigned flags)
 {
     simrng_t *s = simrng_cur();
     (void)flags;
+    if (s->on_call) s->on_call(s->on_call_ctx);
     s->calls++;
     if (s->transient > 0) {
         s->transient--;
